@@ -52,9 +52,9 @@ CHECKS = {
         bin="run_noise", build="inpkg", pkg="brontide", level="exploration",
         run_args=["-test.run=^TestVerifRun$", "-test.timeout=0"],
         quick=dict(runs=1600, wall=60), thorough=dict(runs=60000, wall=600),
-        rule="one evaluation = one seeded session: handshake (honest / wrong static key / one bit of one act flipped) then a seeded sequence of writes of sizes {0,1,2,65534,65535,uniform} and, one in twelve, Conn.Write calls of 65536..135000 bytes (chunked into maximal records, resumed after a timeout like an io.Writer: Flush the record in flight, then Write the rest) in both directions; after a timed-out write an impatient caller may try WriteMessage instead of resuming (must be refused) over an in-memory pipe whose writer accepts a drawn prefix and then times out and whose reader fragments reads; long arm crosses 2-4 key rotations, short arm starts 5 messages before a rotation; attacker arm flips/truncates/deletes/inserts/swaps/replays/reflects/splices ciphertext. non-trivial = (benign) >= 5 messages delivered and, if pipe faults are enabled, at least one fired / (attack arms) the attack was applied; distinct = distinct trace hash",
+        rule="one evaluation = one seeded session: handshake (honest / wrong static key / one bit of one act flipped) then a seeded sequence of writes of sizes {0,1,2,65534,65535,uniform} and, one in twelve, Conn.Write calls of 65536..135000 bytes (chunked into maximal records, resumed after a timeout like an io.Writer: Flush the record in flight, then Write the rest) in both directions; after a timed-out write an impatient caller may try WriteMessage instead of resuming (must be refused) over an in-memory pipe whose writer accepts a drawn prefix and then times out and whose reader fragments reads; long arm crosses 2-4 key rotations, short arm starts 5 messages before a rotation; attacker arm flips/truncates/deletes/inserts/swaps/replays/reflects/splices ciphertext; epilogue of the benign arms: a send is given up after a partial flush (ClearPendingSend) and another message follows (fresh (key, nonce) pairs, the peer reads an error). non-trivial = (benign) >= 5 messages delivered and, if pipe faults are enabled, at least one fired / (attack arms) the attack was applied; distinct = distinct trace hash",
         states_measure="distinct (sendNonce/100 per side, rotations per side) tuples",
-        expected_probes=["probe_key_rotation", "probe_two_rotations", "probe_started_near_rotation", "fault_partial_write", "fault_fragmented_read", "probe_chunked_conn_write", "probe_conn_level_handshake", "fault_handshake_act_delivered_in_pieces", "kept_message_checks", "probe_chunked_write_interrupted", "probe_write_refused_with_only_body_unflushed", "fault_attack_flip", "fault_attack_replay-old", "fault_attack_reflect", "fault_handshake_tamper"],
+        expected_probes=["probe_key_rotation", "probe_two_rotations", "probe_started_near_rotation", "fault_partial_write", "fault_fragmented_read", "probe_chunked_conn_write", "probe_conn_level_handshake", "fault_handshake_act_delivered_in_pieces", "probe_send_abandoned_after_partial_flush", "kept_message_checks", "probe_chunked_write_interrupted", "probe_write_refused_with_only_body_unflushed", "fault_attack_flip", "fault_attack_replay-old", "fault_attack_reflect", "fault_handshake_tamper"],
         real_vs_stub={"brontide.Machine (handshake acts, WriteMessage, Flush, ReadMessage, key rotation)": "real",
                       "brontide.Conn Read/Write/Flush": "real, constructed directly over the simulated pipe",
                       "TCP / net.Conn": "simulated in-memory pipe with partial writes (timeout errors) and fragmented reads",
